@@ -163,7 +163,7 @@ def check_assemblies(seeds, steps_n):
         ea.varlist = dict(env=list(sys_), sys=list(env), impl=list(env))
         ea.prime_varlists()
         ea.action['impl'] = aut.bdd.copy(aut.action['env'], ea.bdd)
-        ea.init['impl'] = aut.bdd.copy(aut.exist(['_goal'] + (['_hold'] if '_hold' in aut.vars else []), aut.init['env']), ea.bdd)
+        ea.init['impl'] = aut.bdd.copy(aut.exist([v for v in ('_goal', '_hold') if v in aut.vars] or [], aut.init['env']), ea.bdd)
         # component names chosen to provoke clashes: the environment component is named like a variable it controls
         names = dict(e=env[0], s=rnd.choice(['s', sys_[0] if sys_ else 's', 'sx']))
         if names['e'] == names['s']:
